@@ -175,6 +175,26 @@ SHAPES = [
     (H + 'HttpHeaderFieldValueContentSecurityPolicy', 'many-sources', lambda n: b"default-src 'self' " + b'a.example ' * n),
     (H + 'HttpHeaderFieldValueContentSecurityPolicy', 'many-directives', lambda n: b"img-src 'self'; " * n + b"default-src 'none'"),
     (H + 'HttpHeaderFieldValueContentSecurityPolicy', 'many-hash-sources', lambda n: b'script-src ' + b"'sha256-YWJj' " * n),
+    # lists of *distinct* items (a parser that looks every new name up among the ones it has already collected is
+    # linear on n copies of one item and quadratic on n different ones)
+    (H + 'HttpHeaderFieldValueSTS', 'many-distinct-directives', lambda n: b'max-age=1' + b''.join(b'; x%d=y' % i for i in range(n))),
+    (H + 'HttpHeaderFieldValueExpectCT', 'many-distinct-directives', lambda n: b'max-age=1' + b''.join(b', x%d="y"' % i for i in range(n))),
+    (H + 'HttpHeaderFieldValueCacheControlResponse', 'many-distinct-directives', lambda n: b'no-cache' + b''.join(b', x%d=y' % i for i in range(n))),
+    (H + 'HttpHeaderFieldValueSetCookie', 'many-distinct-attributes', lambda n: b'a=b' + b''.join(b'; x%d=y' % i for i in range(n))),
+    (H + 'HttpHeaderFieldValueContentType', 'many-distinct-parameters', lambda n: b'text/html' + b''.join(b'; x%d=y' % i for i in range(n))),
+    (H + 'HttpHeaderFieldValuePublicKeyPinning', 'many-distinct-directives',
+     lambda n: b'max-age=1; pin-sha256="YWJj"' + b''.join(b'; x%d=y' % i for i in range(n))),
+    (H + 'HttpHeaderFields', 'many-distinct-unknown-headers', lambda n: b''.join(b'X-a%d: b\r\n' % i for i in range(n)) + b'\r\n'),
+    (H + 'HttpHeaderFieldValueContentSecurityPolicy', 'many-distinct-sources', lambda n: b"default-src 'self'" + b''.join(b' a%d.example' % i for i in range(n))),
+    (D + 'txt:DnsRecordTxtValueDmarc', 'many-distinct-unknown-tags', lambda n: b'v=DMARC1; p=none' + b''.join(b'; x%d=y' % i for i in range(n))),
+    (D + 'txt:DnsRecordTxtValueMtaSts', 'many-distinct-extensions', lambda n: b'v=STSv1; id=1' + b''.join(b'; a%d=b' % i for i in range(n))),
+    (D + 'txt:DnsRecordTxtValueTlsRpt', 'many-distinct-extensions', lambda n: b'v=TLSRPTv1; rua=mailto:a@example.com' + b''.join(b'; a%d=b' % i for i in range(n))),
+    (D + 'txt:DnsRecordTxtValueSpf', 'many-distinct-unknown-modifiers', lambda n: b'v=spf1 ' + b''.join(b'x%d=y ' % i for i in range(n)) + b'-all'),
+    (D + 'txt:DnsRecordTxtValueSpf', 'many-distinct-includes', lambda n: b'v=spf1 ' + b''.join(b'include:a%d.example ' % i for i in range(n)) + b'~all'),
+    ('cryptoparser.common.field:NameValuePairListSemicolonSeparated', 'many-distinct-pairs', lambda n: b''.join(b'a%d=b; ' % i for i in range(n)) + b'c=d'),
+    (S + 'subprotocol:SshKeyExchangeInit', 'many-distinct-unknown-names', lambda n: _kexinit({2: b','.join(b'x%d' % i for i in range(n))})),
+    (S + 'key:SshCertExtensionVector', 'many-distinct-unknown-options',
+     lambda n: (lambda body: u(len(body), 4) + body)(b''.join(_ssh_string(b'x%d@y' % i) + _ssh_string(b'') for i in range(n)))),
     # the same lists delimited only by the *other* member of the separator set (HTAB, bare LF, '/')
     (H + 'HttpHeaderFieldValueContentSecurityPolicy', 'many-sources-htab', lambda n: b"default-src\t'self'" + b'\ta.example' * n),
     (H + 'HttpHeaderFieldValueContentSecurityPolicy', 'many-hash-sources-htab', lambda n: b'script-src' + b"\t'sha256-YWJj'" * n),
